@@ -212,27 +212,28 @@ def completePrevious (cfg : Config) (s : St) (count : Nat) (dw : Bool) : St × B
   | none => (s, false)
   | some st =>
     match st.index with
-    | some 0 => if dw then (s, false) else goToCompletion cfg s none
     | none => goToCompletion cfg s (some (st.comps.length - 1))
-    | some i => goToCompletion cfg s (some (i - count))
+    | some i =>
+      if i = 0 then
+        if dw then (s, false) else goToCompletion cfg s none
+      else goToCompletion cfg s (some (i - count))
 
 /-- `Buffer.cancel_completion()` -/
 def cancelCompletion (cfg : Config) (s : St) : St × Bool :=
   match s.cs with
   | none => (s, false)
   | some _ =>
-    let (s1, e) := goToCompletion cfg s none
-    if e then (s1, true) else ({ s1 with cs := none }, false)
+    let r := goToCompletion cfg s none
+    if r.2 then (r.1, true) else ({ r.1 with cs := none }, false)
+
+/-- first lines of `apply_completion`: `if self.complete_state: self.go_to_completion(None)` -/
+def cancelFirst (cfg : Config) (s : St) : St × Bool :=
+  if s.cs.isSome then goToCompletion cfg s none else (s, false)
 
 /-- `Buffer.apply_completion(c)` -/
 def applyCompletion (cfg : Config) (s : St) (c : Completion) : St × Bool :=
-  let (s1, e) := match s.cs with
-    | none => (s, false)
-    | some _ => goToCompletion cfg s none
-  if e then (s1, true) else
-  let s2 := { s1 with cs := none }
-  let s3 := deleteBefore cfg s2 (-c.start).toNat
-  (insertText cfg s3 c.text, false)
+  if (cancelFirst cfg s).2 then ((cancelFirst cfg s).1, true) else
+  (insertText cfg (deleteBefore cfg { (cancelFirst cfg s).1 with cs := none } (-c.start).toNat) c.text, false)
 
 /-- `Buffer.start_completion(...)` -/
 def startCompletion (s : St) (m : Mode) : St :=
@@ -314,59 +315,74 @@ def proceed (s : St) (tok : Nat) : Bool :=
   | some st => st.token == tok
   | none => false
 
-/-- `async_completer` after the `async for` loop -/
-def compPost (cfg : Config) (s : St) (m : Mode) (doc : Doc) (tok : Nat) : Seg :=
-  -- `del completions[:]` on the (shared) state object of this run
-  let s := match s.cs with
-    | some st =>
-      if st.token == tok && (!cfg.fixD1 || st.index.isNone) then
-        match st.comps with
-        | [c] => if doesNothing doc c then { s with cs := some { st with comps := [] } } else s
-        | _ => s
-      else s
-    | none => s
+/-- `if len(completions) == 1 and [complete_index is None and] completion_does_nothing(..):
+    del completions[:]` on the state object of this coroutine run (visible only while that
+    object is still the buffer's) -/
+def dropNoop (cfg : Config) (s : St) (doc : Doc) (tok : Nat) : St :=
   match s.cs with
   | some st =>
-    if st.token == tok then
-      if st.index.isSome then ({ s with runC := false }, none)
-      else if st.comps.isEmpty then ({ s with cs := none, runC := false }, none)
-      else
-        match m with
-        | .plain => ({ s with runC := false }, none)
-        | .first => ({ (goToCompletion cfg s (some 0)).1 with runC := false }, none)
-        | .last => ({ (goToCompletion cfg s (some (st.comps.length - 1))).1 with runC := false }, none)
-        | .common =>
-          let cp := commonSuffix doc st.comps
-          if !cp.isEmpty then
-            let s1 := insertText cfg s cp
-            if st.comps.length > 1 then
-              ({ setCompletions s1 (st.comps.map (fromPos cp.length)) with runC := false }, none)
-            else ({ s1 with cs := none, runC := false }, none)
-          else if st.comps.length == 1 then
-            ({ (goToCompletion cfg s (some 0)).1 with runC := false }, none)
-          else ({ s with runC := false }, none)
-    else
-      if s.doc.before == doc.before then ({ s with runC := false }, none)
-      else if isPrefixOf' doc.before s.doc.before then compBegin s m   -- raise _Retry
-      else ({ s with runC := false }, none)
-  | none =>
-    if s.doc.before == doc.before then ({ s with runC := false }, none)
-    else if isPrefixOf' doc.before s.doc.before then compBegin s m     -- raise _Retry
-    else ({ s with runC := false }, none)
+    if st.token == tok && (!cfg.fixD1 || st.index.isNone) then
+      match st.comps with
+      | [c] => if doesNothing doc c then { s with cs := some { st with comps := [] } } else s
+      | _ => s
+    else s
+  | none => s
+
+/-- the coroutine returns: `_only_one_at_a_time` clears the flag -/
+def segDone (s : St) : Seg := ({ s with runC := false }, none)
+
+/-- `proceed()` is false: give up, or `raise _Retry` when the text before the cursor only grew -/
+def compElse (s : St) (m : Mode) (doc : Doc) : Seg :=
+  if s.doc.before == doc.before then segDone s
+  else if isPrefixOf' doc.before s.doc.before then compBegin s m   -- raise _Retry
+  else segDone s
+
+/-- `proceed()` is true: `st` is the buffer's state and was created by this run -/
+def compProceed (cfg : Config) (s : St) (st : CState) (m : Mode) (doc : Doc) : Seg :=
+  if st.index.isSome then segDone s
+  else if st.comps.isEmpty then segDone { s with cs := none }
+  else
+    match m with
+    | .plain => segDone s
+    | .first => segDone (goToCompletion cfg s (some 0)).1
+    | .last => segDone (goToCompletion cfg s (some (st.comps.length - 1))).1
+    | .common =>
+      if !(commonSuffix doc st.comps).isEmpty then
+        if st.comps.length > 1 then
+          segDone (setCompletions (insertText cfg s (commonSuffix doc st.comps))
+                    (st.comps.map (fromPos (commonSuffix doc st.comps).length)))
+        else segDone { insertText cfg s (commonSuffix doc st.comps) with cs := none }
+      else if st.comps.length == 1 then segDone (goToCompletion cfg s (some 0)).1
+      else segDone s
+
+/-- dispatch on `proceed()` -/
+def compDispatch (cfg : Config) (s : St) (m : Mode) (doc : Doc) (tok : Nat) : Seg :=
+  match s.cs with
+  | some st => if st.token == tok then compProceed cfg s st m doc else compElse s m doc
+  | none => compElse s m doc
+
+/-- `async_completer` after the `async for` loop -/
+def compPost (cfg : Config) (s : St) (m : Mode) (doc : Doc) (tok : Nat) : Seg :=
+  compDispatch cfg (dropNoop cfg s doc tok) m doc tok
+
+/-- `complete_state.completions.append(completion)` (invisible once the state is orphaned) -/
+def appendCompl (s : St) (tok : Nat) (c : Completion) : St :=
+  match s.cs with
+  | some st => if st.token == tok then { s with cs := some { st with comps := st.comps ++ [c] } } else s
+  | none => s
+
+def compsLen (s : St) : Nat :=
+  match s.cs with
+  | some st => st.comps.length
+  | none => 0
 
 /-- the completer's stream delivered its next event to `async for` -/
 def compResume (cfg : Config) (env : Env) (s : St) (m : Mode) (doc : Doc) (i tok : Nat) : Seg :=
   match (env.comp doc)[i]? with
   | some c =>
-    -- `complete_state.completions.append(completion)` (invisible once the state is orphaned)
-    let s1 := match s.cs with
-      | some st => if st.token == tok then { s with cs := some { st with comps := st.comps ++ [c] } } else s
-      | none => s
-    if !proceed s1 tok then compPost cfg s1 m doc tok
-    else
-      let n := match s1.cs with | some st => st.comps.length | none => 0
-      if n ≥ cfg.maxN then compPost cfg s1 m doc tok
-      else (s1, some (.cLoad m doc (i + 1) tok))
+    if !proceed (appendCompl s tok c) tok then compPost cfg (appendCompl s tok c) m doc tok
+    else if compsLen (appendCompl s tok c) ≥ cfg.maxN then compPost cfg (appendCompl s tok c) m doc tok
+    else (appendCompl s tok c, some (.cLoad m doc (i + 1) tok))
   | none => compPost cfg s m doc tok    -- StopAsyncIteration
 
 /-! ### validator coroutine -/
@@ -395,33 +411,36 @@ def sugResume (env : Env) (s : St) (doc : Doc) : Seg :=
 
 /-! ### scheduler -/
 
-/-- replace task `i` by the continuation of its segment (tasks created meanwhile were
-    appended behind it) -/
-def finishSeg (i : Nat) (r : Seg) : St :=
+/-- The task list without the task that is being run, and what becomes of that task: a
+    coroutine that goes on waiting is put (back) at the front.  (The order of the list only
+    matters among *pending* tasks: it is their creation order.) -/
+def finishSeg (r : Seg) : St :=
   match r.2 with
-  | some t => { r.1 with tasks := r.1.tasks.set i t }
-  | none => { r.1 with tasks := r.1.tasks.eraseIdx i }
+  | some t => { r.1 with tasks := t :: r.1.tasks }
+  | none => r.1
+
+def dropTask (s : St) (i : Nat) : St := { s with tasks := s.tasks.eraseIdx i }
 
 /-- first step of a pending task: the `running` check of `_only_one_at_a_time`, then the
     coroutine body up to its first await -/
 def startTask (s : St) (i : Nat) : St :=
   match s.tasks[i]? with
   | some (.cPend m) =>
-    if s.runC then { s with tasks := s.tasks.eraseIdx i }
-    else finishSeg i (compBegin { s with runC := true } m)
+    if s.runC then dropTask s i
+    else finishSeg (compBegin { dropTask s i with runC := true } m)
   | some .vPend =>
-    if s.runV then { s with tasks := s.tasks.eraseIdx i }
-    else finishSeg i (valLoop { s with runV := true })
+    if s.runV then dropTask s i
+    else finishSeg (valLoop { dropTask s i with runV := true })
   | some .sPend =>
-    if s.runS then { s with tasks := s.tasks.eraseIdx i }
-    else finishSeg i (sugBegin { s with runS := true })
+    if s.runS then dropTask s i
+    else finishSeg (sugBegin { dropTask s i with runS := true })
   | _ => s
 
 def resumeTask (cfg : Config) (env : Env) (s : St) (i : Nat) : St :=
   match s.tasks[i]? with
-  | some (.cLoad m doc k tok) => finishSeg i (compResume cfg env s m doc k tok)
-  | some (.vWait doc) => finishSeg i (valResume env s doc)
-  | some (.sWait doc) => finishSeg i (sugResume env s doc)
+  | some (.cLoad m doc k tok) => finishSeg (compResume cfg env (dropTask s i) m doc k tok)
+  | some (.vWait doc) => finishSeg (valResume env (dropTask s i) doc)
+  | some (.sWait doc) => finishSeg (sugResume env (dropTask s i) doc)
   | _ => s
 
 /-! ### the transition system -/
